@@ -3,6 +3,7 @@
    second argument on a tie; rayon combines ordered halves of the index range with it).
    Definitions only. *)
 From Coq Require Import List Bool.
+From PV Require Import Num.
 Import ListNotations.
 
 Section Pipeline.
@@ -31,3 +32,32 @@ Section Pipeline.
   (* Ok(best) or Err("Error in running optimisation.") when there are no replicas *)
   Definition analyse (k : nat) (s0 : S) : option A := best (map (fun i => replica i s0) (seq 0 k)).
 End Pipeline.
+
+(* The order on states (src/state/packed.rs, src/state/potential.rs): PartialEq / PartialOrd compare the
+   SCORES with f64's own comparison; either score undefined (or NaN) gives "unordered".  Ord::cmp is
+   partial_cmp().unwrap() and std::cmp::max(a, b) keeps b unless a is Greater. *)
+Section Order.
+  Variable NN : Num.
+  Notation T := (carrier NN).
+  Local Open Scope num_scope.
+
+  Definition score_cmp (a b : option T) : option comparison :=
+    match a, b with
+    | Some s, Some o =>
+        match s <=? o, o <=? s with
+        | false, false => None
+        | false, true => Some Gt
+        | true, false => Some Lt
+        | true, true => Some Eq
+        end
+    | _, _ => None
+    end.
+
+  Definition score_eq (a b : option T) : bool :=
+    match a, b with Some s, Some o => s =? o | _, _ => false end.
+
+  (* std::cmp::max on two states with these scores: Some true = the first is kept, Some false = the
+     second; None = Ord::cmp panics (unwrap on None) *)
+  Definition max_keeps_first (a b : option T) : option bool :=
+    match score_cmp a b with Some Gt => Some true | Some _ => Some false | None => None end.
+End Order.
